@@ -1,0 +1,19 @@
+//go:build verif
+
+// Contracts for package app, property C15: the block-end driver of the Ethereum tracker transitions.
+// Comment-only file, read by /verif/govc.
+
+package app
+
+// doEthTransitions: every tracker it processes is read from the ONGOING store of ts (re-aimed at the deliver State),
+// handed to the transition engine together with that same store object, and written back through the same store into
+// the ONGOING key space; balances and all other ledgers are outside the frame.
+//@ func doEthTransitions
+//@   requires ts != nil && trkWfStore(ts) && js != nil && witnesses != nil && deliver != nil && wfState(deliver)   // C15.transition-ctx
+//@   assumes trkGetOK(ts)                                                                                      // A-ITER-GET the error of ts.Get is ignored for the names just iterated from the same store (a failure would dereference a nil tracker)
+//@   invariant iter1: forall j int :: 0 <= j && j < len(tnames) ==> tnames[j] != nil                           // C15.transition-ctx
+//@   invariant loop1: ts != nil && ts.state == deliver && trkWfStore(ts) && trkGetOK(ts) && wfState(deliver) && js != nil && witnesses != nil   // C15.transitions-on-deliver-state
+//@   invariant loop1: forall j int :: 0 <= j && j < len(tnames) ==> tnames[j] != nil                           // C15.transition-ctx
+//@   invariant loop1: forall b *balance.Store :: bal(b) == old(bal(b)) && balTotal(b) == old(balTotal(b))      // C15.transitions-no-balances
+//@   ensures ts.state == deliver                                                                               // C15.transitions-on-deliver-state
+//@   ensures forall b *balance.Store :: bal(b) == old(bal(b)) && balTotal(b) == old(balTotal(b))               // C15.transitions-no-balances
